@@ -7,6 +7,7 @@ import (
 	"fmt"
 	"math"
 	"math/big"
+	"runtime/debug"
 	"sort"
 
 	"github.com/iotaledger/hive.go/core/safemath"
@@ -28,6 +29,20 @@ func (r *rec) fail(op, typ, kind string, detail string, replay any) {
 	}
 	raw, _ := json.Marshal(replay)
 	r.viol[sig] = &cli.Violation{Part: "safemath", Engine: "I", Signature: sig, Message: detail, Replay: raw}
+}
+
+// errPanicked marks a call that panicked instead of returning (value, error).
+var errPanicked = errors.New("the call panicked")
+
+// guarded runs one library call; a panic is reported once per (operation, type) and turned into errPanicked.
+func guarded[T any](r *rec, op, typ string, args []any, f func() (T, error)) (v T, err error) {
+	defer func() {
+		if p := recover(); p != nil {
+			r.fail(op, typ, "panic", fmt.Sprintf("%s[%s]%v panicked instead of returning a result or an error: %v", op, typ, args, p), replayCase{Op: op, Type: typ, X: fmt.Sprint(args[0]), Y: fmt.Sprint(args[1]), Z: fmt.Sprint(args[2:]...)})
+			err = errPanicked
+		}
+	}()
+	return f()
 }
 
 type replayCase struct {
@@ -85,10 +100,10 @@ func smallType[T safemath.Integer](r *rec, typ string, bits int, signed bool, xs
 			g, err = safemath.SafeMul(tx, ty)
 			judgeSmall(r, "SafeMul", typ, x, y, x*y, true, false, g, err, lo, hi)
 			if y == 0 {
-				g, err = safemath.SafeDiv(tx, ty)
+				g, err = guarded(r, "SafeDiv", typ, []any{x, y}, func() (T, error) { return safemath.SafeDiv(tx, ty) })
 				judgeSmall(r, "SafeDiv", typ, x, y, 0, false, true, g, err, lo, hi)
 			} else {
-				g, err = safemath.SafeDiv(tx, ty)
+				g, err = guarded(r, "SafeDiv", typ, []any{x, y}, func() (T, error) { return safemath.SafeDiv(tx, ty) })
 				judgeSmall(r, "SafeDiv", typ, x, y, x/y, true, false, g, err, lo, hi)
 			}
 		}
@@ -243,7 +258,7 @@ func wideType[T safemath.Integer](r *rec, typ string, bits int, signed bool, ric
 			judgeBig(r, "SafeSub", typ, args, new(big.Int).Sub(bx, by), false, bigOf(g, signed), err, bits, signed)
 			g, err = safemath.SafeMul(x, y)
 			judgeBig(r, "SafeMul", typ, args, new(big.Int).Mul(bx, by), false, bigOf(g, signed), err, bits, signed)
-			g, err = safemath.SafeDiv(x, y)
+			g, err = guarded(r, "SafeDiv", typ, []any{bx, by}, func() (T, error) { return safemath.SafeDiv(x, y) })
 			if by.Sign() == 0 {
 				judgeBig(r, "SafeDiv", typ, args, nil, true, bigOf(g, signed), err, bits, signed)
 			} else {
@@ -268,7 +283,7 @@ func special64(r *rec, rich bool, shard, nshards int) {
 			g, err := safemath.SafeMulUint64(bx.Uint64(), by.Uint64())
 			judgeBig(r, "SafeMulUint64", "uint64", []*big.Int{bx, by}, new(big.Int).Mul(bx, by), false, new(big.Int).SetUint64(g), err, 64, false)
 			for _, bz := range au {
-				g, err := safemath.Safe64MulDiv(bx.Uint64(), by.Uint64(), bz.Uint64())
+				g, err := guarded(r, "Safe64MulDiv", "uint64", []any{bx, by, bz}, func() (uint64, error) { return safemath.Safe64MulDiv(bx.Uint64(), by.Uint64(), bz.Uint64()) })
 				if bz.Sign() == 0 {
 					judgeBig(r, "Safe64MulDiv", "uint64", []*big.Int{bx, by, bz}, nil, true, new(big.Int).SetUint64(g), err, 64, false)
 				} else {
@@ -288,8 +303,17 @@ func special64(r *rec, rich bool, shard, nshards int) {
 	}
 }
 
-func run(c *cli.Ctx, what string) *cli.PartResult {
+func run(c *cli.Ctx, what string) (pr *cli.PartResult) {
 	r := &rec{viol: map[string]*cli.Violation{}}
+	defer func() {
+		if p := recover(); p != nil { // a panic of an unguarded operation ends this shard's enumeration, but is reported
+			r.fail("safemath", what, "panic", fmt.Sprintf("an operation panicked instead of returning a result or an error: %v\n%s", p, debug.Stack()), replayCase{Op: "safemath", Type: what})
+			pr = &cli.PartResult{Engine: "I", Evaluations: r.evals, Distinct: r.nontriv, Exhaustive: false}
+			for _, v := range r.viol {
+				pr.Violations = append(pr.Violations, v)
+			}
+		}
+	}()
 	exhaustive := true
 	var notes []string
 	switch what {
@@ -337,7 +361,7 @@ func run(c *cli.Ctx, what string) *cli.PartResult {
 		notes = append(notes, fmt.Sprintf("32/64-bit: complete cross product of the boundary alphabet (%d / %d / %d / %d values), all shifts 0..255; MulDiv triples over %d values", len(boundary(32, true, true)), len(boundary(32, false, true)), len(boundary(64, true, true)), len(boundary(64, false, true)), len(boundary(64, false, rich))))
 		exhaustive = false
 	}
-	pr := &cli.PartResult{Engine: "I", Evaluations: r.evals, Distinct: r.nontriv, States: 0, Exhaustive: exhaustive, Notes: notes}
+	pr = &cli.PartResult{Engine: "I", Evaluations: r.evals, Distinct: r.nontriv, States: 0, Exhaustive: exhaustive, Notes: notes}
 	pr.Samples = []any{fmt.Sprintf("%s shard %d/%d: %d evaluations, %d of them with a non-representable exact result", what, c.Shard, c.NShards, r.evals, r.nontriv),
 		"SafeMul[int8](-1,-128) exact=128 -> must be overflow", "SafeLeftShift[uint8](3,7) exact=384 -> must be overflow", "Safe64MulDiv(2^63,2,2^64-1)"}
 	var sigs []string
